@@ -49,6 +49,11 @@ def run(F, rep, tier):
     same_node(F, rep)
     import c04
     c04.annotation_purity(F, rep, "ANNOTATION-PERMISSIVE")
+    # a function field is copied per read only where its type is known at the read - that is: where the receiver is annotated.  The
+    # test that keeps a field with an open purity from being copied has to see every open purity, or the annotated program is
+    # accepted (each copy settles the callback's purity for itself) and the erased one rejected (shared with C04)
+    import core as _core0
+    _core0.borrow(rep, c04.purity_walks_reach_every_component, lambda o: o["rule"] == "PURITY-COPY" and "|purity-walk|" in o["key"], F)
     unknown_is_deferred(F, rep)
     # .. and what is deferred is the check that would have run with the annotation present
     import c03
@@ -69,6 +74,7 @@ def run(F, rep, tier):
     c09.annotation_before_binder(F, rep)
     import c12
     c12.chained_namespace(F, rep, "ANNOTATION-RESOLVES")
+    c12.found_member_is_the_answer(F, rep, "ANNOTATION-RESOLVES")
     # parsing an annotation leaves the parser as it found it (newline mode restored): what follows parses the same with or without it
     import core
     import c14
